@@ -50,6 +50,12 @@ inductive Ev where
   | destNone (self target : Nat)                 -- target not destructible (gone, unknown or a blueprint)
   | clone (self new kind : Nat) (n q : Int)      -- new clone of blueprint `kind`; its create() did set_heart_beat(n)
   | cloneDup (self new : Nat)
+  | into (item carrier : Nat)                    -- `item` was moved into the inventory of `carrier`
+  | intoNone (item carrier : Nat)                -- ... refused
+  | hookGone (item : Nat)                        -- ... returned; the item is gone already
+  | destGone (self target : Nat)                 -- destruct(target) returned early: a hook left target destructed
+  | hook (item carrier : Nat)                    -- destruct(carrier) in progress: move_or_destruct() of `item` entered
+  | hookEnd (item : Nat)                         -- ... returned; the driver destructs the item now
   | err (o : Nat)                                -- uncaught error raised by o
   | topErr (o : Nat)                             -- the top-level operation of o ended with an error
   | topDead (o : Nat)
@@ -222,6 +228,17 @@ def judge1 (j : JState) (e : Ev) : JState :=
       else j3.flagV s!"interval-wrong {showOid new} clone set_heart_beat({n}) then query_heart_beat={q} want={jQuery j3 new}"
   | .cloneDup _ new =>
     if j.known.contains new then j else j.flagV s!"clone-refused {showOid new}"
+  | .into _ _ => j
+  | .intoNone _ _ => j
+  | .destGone _ t => if j.alive t then j.flagV s!"destruct-incomplete {showOid t}" else j
+  | .hookGone i => if j.alive i then j.flagV s!"item-not-destructed {showOid i}" else j
+  | .hook i _ =>
+    if !opAllowed j then j.flagV s!"operation-outside-beat hook {showOid i}" else j
+  | .hookEnd i =>
+    -- the item did not move away in its move_or_destruct(): the driver destructs it
+    if !opAllowed j then j.flagV s!"operation-outside-beat hookend {showOid i}"
+    else if !j.alive i then j.flagV s!"destruct-of-missing-object {showOid i}"
+    else { jDisable j i with dead := i :: j.dead }
   | .err _ =>
     -- an uncaught error switches off the heart beat of the object whose heart_beat is running - and only that
     let j1 := match j.cur with
